@@ -46,8 +46,8 @@ func monitorC10(col *stats.Collector) func(h *Hist) {
 func TestC10OneSwapPerChannel(t *testing.T) {
 	col := stats.Get("C10.hist")
 	rapid.Check(t, func(t *rapid.T) {
-		h := newHist(t, HistCfg{MaxSteps: 14, Chains: []string{"btc", "lbtc"}, Restarts: true, MultiSwap: true,
-			Weights: map[string]int{"start": 4, "deliver": 4, "settle": 1, "restart": 1, "mine": 1}})
+		h := newHist(t, HistCfg{MaxSteps: 18, Chains: []string{"btc", "lbtc"}, Restarts: true, MultiSwap: true, PeerMoves: true, Timeouts: true,
+			Weights: map[string]int{"start": 4, "deliver": 3, "progress": 4, "settle": 1, "restart": 1, "mine": 1, "peermove": 2, "timeout": 1}})
 		defer h.Close()
 		h.monitors = []func(*Hist){monitorC10(col)}
 		h.run(h.stdActions())
